@@ -64,6 +64,15 @@ int main(int argc, char** argv) {
         if (R.mine(kase)) run_case(kase, {{on, val}}, {}, std::string("file-name-with-") + cls + "/");
     }
     R.bound_done("file-name options x names containing # = ; [ ] tab, leading / trailing blank, quotes, backslash, given on the command line");
+    // filling patterns: the saved file holds one BunchCurrent line per bucket, whatever the pattern looks like (empty buckets first, last, in a row; long trains)
+    for (const char* val : {"0 2e-3 1e-3", "1e-3 0", "0 0 1e-3", "2e-3 0 0 1e-3", "0 1e-3 0", "1e-3 1e-3 1e-3 1e-3 1e-3 1e-3 1e-3", "1e-3 2e-3 3e-3 4e-3 5e-3 6e-3 7e-3 8e-3 9e-3", "5e-4 5e-4"}) for (int src = 0; src < 3; src++) {
+        std::string kase = std::string("filling pattern='") + val + "' src=" + (src == 0 ? "cli" : src == 1 ? "cfg" : "both");
+        if (!R.mine(kase)) continue;
+        if (src == 0) run_case(kase, {{"BunchCurrent", val}}, {}, "filling-pattern/");
+        else if (src == 1) run_case(kase, {}, {{"BunchCurrent", val}}, "filling-pattern/");
+        else run_case(kase, {{"BunchCurrent", val}}, {{"BunchCurrent", "3e-3 0 1e-3"}}, "filling-pattern/");
+    }
+    R.bound_done("BunchCurrent x 8 filling patterns (leading / trailing / consecutive empty buckets, trains of 7 and 9) x {command line, parent config, both}");
     // aliases in the parent config, alone and against the canonical name on the command line
     for (auto& al : ALIASES) for (int v = 0; v < 2; v++) for (int withcli = 0; withcli < 2; withcli++) {
         const Opt* o = find(al.canonical); const std::string val = v ? o->v2 : o->v1, other = v ? o->v1 : o->v2;
